@@ -732,6 +732,10 @@ class Integer(Atomic, CommonMath):
             raise TypeError("invalid constructor datatype")
 
     def encode(self, tag):
+        # only four octets are emitted, refuse what would be silently truncated
+        if (self.value < -0x80000000) or (self.value > 0x7FFFFFFF):
+            raise ValueError("integer out of range")
+
         # rip apart the number
         data = bytearray(struct.pack('>I', self.value & 0xFFFFFFFF))
 
